@@ -58,7 +58,16 @@ def fixtures():
         t = self.model.systems.timestep
         self.log.append((t, self.id))
         if self.when is not None and t == self.when:
+            also = getattr(self, 'also', None)       # the completing call changes the system set as well (a one-shot system retiring itself, ...)
+            if also == 'clean_up_before':
+                self.clean_up()
+            elif also == 'add_before':
+                self.model.systems.add_system(Logger('spawned_by_completer', self.model, self.log, priority=self.spawn_priority))
             self.model.complete()
+            if also == 'clean_up_after':
+                self.clean_up()
+            elif also == 'add_after':
+                self.model.systems.add_system(Logger('spawned_by_completer', self.model, self.log, priority=self.spawn_priority))
             if self.reenter:
                 # advance requests made by the completing system itself: the model is complete NOW, so they are no-ops / errors like any other
                 model, n = self.model, len(self.log)
@@ -190,6 +199,13 @@ def completing_run(ctx, rng, prios, pos, tc, windows=None, via_n=False):
     completer = systems[order[pos]]
     completer.when = tc
     completer.start, completer.frequency = 0, 1          # the completer itself must be due at tc
+    if rng.random() < 0.3:
+        completer.also = rng.choice(['clean_up_before', 'clean_up_after', 'add_before', 'add_after'])
+        completer.spawn_priority = rng.randint(-4, 4)
+        ctx.count('completing_calls_that_also_change_the_system_set')
+    if rng.random() < 0.3:
+        completer.end = tc          # the completing system's own window closes with the timestep in which it completes the model
+        ctx.count('completions_in_the_last_timestep_of_the_completers_window')
     if rng.random() < 0.35:
         completer.reenter = rng.choice(['execute', 'throw', 'both'])
         ctx.count('advance_requests_from_inside_the_completing_system')
